@@ -31,6 +31,7 @@ def build_world():
         mod = importlib.import_module(m)
         importlib.reload(mod) if getattr(mod, '_loaded_once', False) else None
         mod._loaded_once = True
+    dsl.apply_object_invariant()
     for c in dsl.CONTRACTS:
         w.add_contract(c)
     return w
